@@ -122,11 +122,42 @@ if tier(False, True):
     SCEN.update(THREE)
 
 
+def solo_in_fresh_process(name, reverse):
+    """every thread body alone on a fresh template, in the given order, in a FRESH interpreter -> {thread: repr(result)}"""
+    import json
+    import os
+    import subprocess
+    import sys
+    code = ('import json, sys\nfrom harness import C18\nfrom vlib import schedsmt\n'
+            'mk, cooked, inputs = C18.SCEN.get(%r) or C18.THREE[%r]\n'
+            'items = list(inputs.items())\n'
+            'if %r: items.reverse()\n'
+            'tr, solo = schedsmt.run_solo(mk, dict(items), cooked, C18.call_kw)\n'
+            'print("@@SOLO@@" + json.dumps({k: repr(v)[:300] for k, v in solo.items()}))\n' % (name, name, bool(reverse)))
+    p = subprocess.run([sys.executable, '-c', code], capture_output=True, text=True, timeout=120, env=dict(os.environ))
+    i = p.stdout.rfind('@@SOLO@@')
+    if i < 0:
+        return None
+    return json.loads(p.stdout[i + 8:].strip().splitlines()[0])
+
+
+def order_dependence(name):
+    a, b = solo_in_fresh_process(name, False), solo_in_fresh_process(name, True)
+    if a is None or b is None:
+        return None
+    return {k: (a[k], b.get(k)) for k in a if b.get(k) != a[k]}
+
+
 def make(name):
     mk, cooked, inputs = SCEN[name]
 
     def run(extra=()):
         t0 = time.time()
+        od = order_dependence(name)
+        if od:
+            return {'status': 'refuted', 'cex': {'scenario': name, 'schedule': [], 'fresh_process_order': True}, 'paths': 2, 'queries': 0, 'solver_s': 0.0,
+                    'wall_s': round(time.time() - t0, 2), 'functions': [], 'samples': [],
+                    'message': 'thread bodies rendered alone on fresh template objects in two fresh interpreters, in the orders A..Z and Z..A, give different results: %r' % (od,)}
         r = schedsmt.analyse(mk, inputs, cooked, call_kw)
         res = {'paths': r.get('candidates', 0) + 1, 'queries': r['queries'], 'solver_s': round(r['solver_s'], 3), 'wall_s': round(time.time() - t0, 2),
                'functions': ['shared objects of scenario %s: template + compiled tag objects (%d events, %d writes)' % (name, r['events'], r['writes'])],
@@ -147,6 +178,12 @@ def replay(cex):
     name, order = cex['scenario'], cex['schedule']
     mk, cooked, inputs = SCEN.get(name) or THREE[name]
     worst = None
+    if cex.get('fresh_process_order'):
+        od = order_dependence(name)
+        if od:
+            return False, ('scenario %s: each thread body rendered alone on a fresh template object; in a fresh interpreter with the order A..Z and in another with Z..A the results '
+                           'differ %r - state shared outside the template object (module-level cache) leaks from one render into another' % (name, od))
+        return True, 'no order dependence on replay'
     if cex.get('order_dependence'):
         _t1, s1 = schedsmt.run_solo(mk, inputs, cooked, call_kw)
         _t2, s2 = schedsmt.run_solo(mk, dict(reversed(list(inputs.items()))), cooked, call_kw)
